@@ -1,8 +1,9 @@
 #!/bin/bash
-# runs every claimed check of one tier against /repo, one after another; prints id, exit code, seconds
+# runs every claimed check of one tier against /repo, one after another, from the checkout this script lives in; prints id, exit code, seconds
 tier=${1:-quick}; shift
-ids=${@:-$(python3 -c "import json;print(' '.join(c['property_id'] for c in json.load(open('/verif/MANIFEST.json'))['checks']))" 2>/dev/null)}
-cd /verif
+V=$(cd "$(dirname "$0")/.." && pwd); cd "$V"
+ids=${@:-$(python3 -c "import json;print(' '.join(c['property_id'] for c in json.load(open('MANIFEST.json'))['checks']))" 2>/dev/null)}
+L=${RUN_ALL_LOGDIR:-/tmp}
 for id in $ids; do
-  s=$(date +%s); ./check $id --tier $tier > /tmp/run_all_$id.log 2>&1; e=$?; echo "$id exit=$e $(( $(date +%s) - s ))s $(tail -1 /tmp/run_all_$id.log | cut -c1-120)"
+  s=$(date +%s); ./check $id --tier $tier > $L/run_all_${tier}_$id.log 2>&1; e=$?; echo "$id exit=$e $(( $(date +%s) - s ))s $(tail -1 $L/run_all_${tier}_$id.log | cut -c1-120)"
 done
